@@ -43,6 +43,17 @@ def check(repo, col, tier):
     _linear(repo, col)
     _additive(repo, col)
     _types(repo, col)
+    from . import c01_solver, c11
+    col.rule("R-C09-units", "the synaptic current enters the voltage equation like every other current (divided by the capacitance)", 2)
+    st_ = repo.method("Module", "step")
+    ex_ = idx.expander(repo, st_)
+    d_ = next((n for n in walk_no_nested(st_.node) if isinstance(n, ast.Dict) and any(isinstance(k, ast.Constant) and k.value == "voltage_terms" for k in n.keys)), None)
+    if d_ is None:
+        raise AnalysisError("Module.step: solver arguments not found")
+    kw_ = {k.value: ex_.term(v) for k, v in zip(d_.keys, d_.values) if isinstance(k, ast.Constant)}
+    c01_solver.current_terms(repo, col, "R-C09-units", st_, ex_, kw_, d_)
+    col.rule("R-C09-select", "a synapse-type name selects the view's synapses of that type by their global edge index", 3)
+    c11._named(repo, col, "R-C09-select")
     col.rule("R-C09-rows", "synapse parameters are written only to the selected synapses of the type that has the parameter", 6)
     c10._rows(repo, col, "R-C09-rows")
 
@@ -103,6 +114,11 @@ def _roles(repo, col, cl, name):
         # states written back under the same key
         st = [s for s in ex.stores if s.kind == "sub" and s.base.op == "param" and s.base.name == fi.params[1]]
         ok = bool(st) and all(s.key.op == "item" and s.value.op == "item" and s.key.args[0].key() == s.value.args[0].key() for s in st)
+        # or: states.update(<dict returned by update_states>) -- keys and values travel together by construction
+        upd = [s for s in ex.stores if s.kind == "mcall" and s.key.name == "update" and s.base.op == "param" and s.base.name == fi.params[1]]
+        if not st and upd:
+            ok = all(len(s.value.args) == 2 and T.find(s.value.args[1], lambda x: x.op == "mcall" and x.name == "update_states") is not None
+                     for s in upd)
         col.check(ok, R, fi, "updated synapse states are written back under their own keys", "states[key] = val",
                   "updated states are stored under other keys", node=st[0].node if st else fi.node)
         return
@@ -273,6 +289,7 @@ def _additive(repo, col):
         return None
 
     for i, (t, want_param) in enumerate(zip(ex.returns[0].args, (p[2], p[3]))):
+        t = idx.inline(repo, fi, t)  # a local helper that sums per compartment is looked through
         parts = scatter_parts(t)
         if parts is None:
             col.unk(R, fi, f"gather_synapes: output {i}", f"not a scatter: {t.short(80)}", node=t.node or fi.node)
